@@ -102,6 +102,56 @@ claim(
     "DESIGN.md 5/C20",
 )
 
+claim(
+    "C05",
+    "File selection is followed statically from the CLI patterns through context.find_and_fix_paths / filter_paths into every concrete "
+    "get_files_to_analyze and into executor.map; every write sink's path is traced (def-use roots) to the work item's own file or the "
+    "manifest store; both project-file enumerators filter symlinks; ':line' patterns cannot exclude a file; include/exclude arguments "
+    "reach parameters of the same role.",
+    "Which paths match which glob (fnmatch semantics over trees x patterns) is not claimed; liveness only through the lost-update rule under C18.",
+    "def-use provenance of file lists and write paths + sibling comparison + argument-role binding",
+    "DESIGN.md 5/C05",
+)
+claim(
+    "C06",
+    "For the 37 remediation codemods (statically interpreted registry) every change effect of every transformer class - report/add_change "
+    "calls and hook returns that replace or remove a node - is shown to be reached only under a result-based gate, using a role-based facts "
+    "analysis with helper call-site meets, driven helper visitors, gated collections and predicates; _process_file's per-rule/per-file lookup "
+    "and short-circuit, every Change's findings lookup and requested rules = tool rule ids are checked.",
+    "Column arithmetic of match_location against real tool output is not claimed; 7 known findings (3 transformers without result gate) are listed.",
+    "role-based must-dataflow of gate facts over all hooks of all registered transformers (interprocedural entry facts, gated collections)",
+    "DESIGN.md 5/C06",
+)
+claim(
+    "C09",
+    "Cross-talk between codemods of one run needs shared state: the per-codemod loop order (apply -> dependencies -> log, must-events), the pool "
+    "lifetime, the execution context's containers (rebound per instance, only indexed by the codemod-id parameter), the FileContext "
+    "construction (fresh per call, default_factory fields) and memoised functions on the transform path are decided structurally.",
+    "Whether one codemod's rewrite can enable another's semgrep rule through the run-wide prefilter needs semgrep semantics and is not claimed.",
+    "must-event ordering + keyed-access discipline of shared containers + object lifetime checks",
+    "DESIGN.md 5/C09",
+)
+claim(
+    "C13",
+    "All 101 registered codemods: every change effect of every transformer class (71 classes plus driven helper visitors) is reached only under "
+    "the line filter (role-based gate analysis); the filter's argument is a position at every call site; file_line_patterns and match_files use "
+    "the same path base; the duplicated filter implementation is AST-equal to the shared one; positions are never requested for rebuilt nodes; "
+    "line_include/line_exclude arguments bind to parameters of the same role.",
+    "fnmatch semantics of pattern spellings and multi-line constructs are not claimed; 18 known findings (6 transformers without line gate) are listed.",
+    "role-based must-dataflow of gate facts over all hooks + sibling AST comparison + argument provenance",
+    "DESIGN.md 5/C13",
+)
+claim(
+    "C14",
+    "Framework part of dependency handling: first-store-wins (a may-event after recording must not reach the next iteration), add_to_file only "
+    "with the non-empty result of add(), add() appends and registers only under `not has_requirement`, both notices keyed by codemod id; plus the "
+    "shared write-discipline rules for the four writers (diff/write agreement, dry-run threading, newline-lossless I/O, ordered symlink-free "
+    "manifest enumeration).",
+    "Validity/preservation of arbitrary manifest texts under the writers' text surgery is not claimed; 4 known findings (CRLF) are listed.",
+    "must/may event dataflow over the store loop + dominance facts + shared write-discipline rules",
+    "DESIGN.md 5/C14",
+)
+
 NA_REASONS: dict[str, str] = {}
 
 
